@@ -24,6 +24,9 @@ SPECIAL["grad_user_zero_area"] = doc(f'<defs>{GRAD}</defs><path id="a" d="M{{x1}
 # sole user of a gradient sits in a translucent group that collapses (its sibling never paints): the
 # product of the two opacities may round to 0 only AFTER the group was flattened
 SPECIAL["grad_user_in_collapsing_group"] = doc(f'<defs>{GRAD}</defs><g opacity="{{o1}}">' + rr(' fill="url(#g)" opacity="{o2}"')[0] + '<path d="M{x3},{y3} L{x4},{y4}" fill="green"/></g>' + rr("", ' fill="red"')[1])
+# a gradient's own gradientTransform with a (possibly tiny) translation: 6-digit rounding decides
+# whether the translation is folded into the coordinates
+SPECIAL["grad_own_transform_translation"] = doc('<defs><linearGradient id="g" gradientUnits="userSpaceOnUse" x1="{gx1}" y1="{gy1}" x2="{gx2}" y2="{gy2}" gradientTransform="matrix({s1} 0 0 {s1} {ne} {nf})">' + STOPS + '</linearGradient></defs>' + rr(' fill="url(#g)"')[0])
 SPECIAL["grad_unused_in_source"] = doc(f'<defs>{GRAD}<linearGradient id="unused">{STOPS}</linearGradient></defs>{a}')
 SPECIAL["grad_outside_defs"] = doc(f'{GRAD}<g transform="scale({{s1}})">{a}</g>')
 SPECIAL["id_shape_stroked"] = doc(rr(' fill="red" stroke="blue" stroke-width="{s1}"')[0] + rr("", ' fill="green"')[1])
@@ -51,6 +54,7 @@ SPECIAL["evenodd_path"] = doc('<path d="M{x1},{y1} L{x2},{y2} L{x3},{y3} Z M{x4}
 SPECIAL["shorthand_and_relative"] = doc('<path d="m{x1},{y1} h{x2} v{y2} s{x3},{y3} {x4},{y4} t{x5},{y5} z" fill="red"/>')
 UNSUPPORTED = {
     "text": doc(rr(' fill="red"')[0] + '<text x="1" y="2">hi <tspan>there</tspan></text>'),
+    "text_in_group": doc('<g fill="red" stroke="blue" stroke-width="{s1}" opacity="{o1}" fill-opacity="0.5" stroke-linecap="round" stroke-linejoin="bevel" fill-rule="evenodd">' + rr()[0] + '<text x="1" y="2">hi <tspan>there</tspan></text></g>'),
     "image_mask_filter": doc('<defs><mask id="m"><rect width="5" height="5"/></mask><filter id="f"/></defs><image width="3" height="3"/>' + rr(' fill="red"')[0]),
     "style_element": doc("<style>.a{fill:red}</style>" + rr(' fill="red"')[0]),
     "symbol_with_id": doc('<symbol id="sym"><rect width="1" height="1"/></symbol>' + rr(' fill="red"')[0]),
